@@ -187,7 +187,7 @@ Qed.
 
 Lemma class_name_norm c : class_name (norm_class c) = class_name c.
 Proof.
-  unfold norm_class. destruct (N.ltb_spec c 3) as [L|L]; [reflexivity|]. now rewrite class_name_big by exact L.
+  unfold norm_class. destruct (N.ltb_spec c 3) as [L|L]; [reflexivity|]. now rewrite (class_name_big c L).
 Qed.
 
 Lemma class_name_nonzero c : Forall (fun b => b <> 0) (class_name c).
@@ -215,7 +215,7 @@ Section Located.
   Lemma bytes_split :
     write h its = write_header h (nlen F) ++ enc_items F pre ++
                   obj_bytes F c id body (le_encode 8 actual) (class_name c) ++ enc_items F post.
-  Proof. rewrite (if_bytes _ _ _ I). unfold its. rewrite enc_items_app. cbn [enc_items]. now rewrite <- app_assoc. Qed.
+  Proof. rewrite (if_bytes _ _ _ I). unfold its. rewrite enc_items_app. cbn [enc_items]. reflexivity. Qed.
 
   (* offset of the object in the archive = offset of its layout *)
   Lemma obj_offset : nlen (lay_header h) + nlen (flat_map lay_item pre) = nlen (write_header h (nlen F) ++ enc_items F pre).
@@ -231,9 +231,9 @@ Section Located.
     unfold read_damaged, read_cur, apply_damage. cbn [fold_left fst snd].
     rewrite bytes_split in *.
     set (PRE := (write_header h (nlen F) ++ enc_items F pre) ++ le_encode 4 T_Object).
-    set (FLD := le_encode 8 actual).
+    set (FLD := le_encode 8 actual) in *.
     set (POST := w_str (class_name c) ++ rec_bytes T_UInteger (le_encode 4 (idx F id)) ++ enc_body F c body ++ enc_items F post).
-    assert (E : write_header h (nlen F) ++ enc_items F pre ++ obj_bytes F c id body (le_encode 8 actual) (class_name c) ++ enc_items F post =
+    assert (E : write_header h (nlen F) ++ enc_items F pre ++ obj_bytes F c id body FLD (class_name c) ++ enc_items F post =
                 PRE ++ FLD ++ POST).
     { unfold PRE, FLD, POST, obj_bytes. now rewrite <- !app_assoc. }
     assert (Hp : nlen (lay_header h) + (nlen (flat_map lay_item pre) + (4 + k)) = nlen PRE + k).
@@ -262,8 +262,12 @@ Section Located.
     k < nlen (class_name c) -> v < 256 -> v <> o -> wf_case h its = true ->
     nth_N (write h its) (nlen (lay_header h) + (nlen (flat_map lay_item pre) + (4 + 8 + 12 + 4 + k))) = Some o ->
     let d := DSubst [(nlen (lay_header h) + (nlen (flat_map lay_item pre) + (4 + 8 + 12 + 4 + k)), v)] in
-    read_damaged h its d = OErr InvalidClass \/ read_damaged h its d = OErr ObjectClassError \/
-    (upper v = upper o /\ read_damaged h its d = OOk (spec_items its)).
+    nth_N (class_name c) k = Some o /\
+    read_damaged h its d =
+      match lookup_class (subst1 (class_name c) k v) with
+      | None => OErr InvalidClass
+      | Some c' => if c' =? norm_class c then OOk (spec_items its) else OErr ObjectClassError
+      end.
   Proof.
     intros Hk Hv Hne Hwf Hb d. subst d.
     unfold read_damaged, read_cur, apply_damage. cbn [fold_left fst snd].
@@ -272,7 +276,6 @@ Section Located.
     pose proof (class_name_nonempty c) as Hne0.
     set (PRE := (write_header h (nlen F) ++ enc_items F pre) ++ le_encode 4 T_Object ++ le_encode 8 actual ++
                 rec_bytes T_Size (le_encode 8 (nlen (class_name c))) ++ le_encode 4 T_Raw).
-    set (FLD := class_name c).
     set (POST := rec_bytes T_UInteger (le_encode 4 (idx F id)) ++ enc_body F c body ++ enc_items F post).
     assert (Hw : forall nm, nm <> [] -> nlen nm = nlen (class_name c) ->
                  write_header h (nlen F) ++ enc_items F pre ++ obj_bytes F c id body (le_encode 8 actual) nm ++ enc_items F post =
@@ -280,28 +283,25 @@ Section Located.
     { intros nm Hn0 Hnl. unfold PRE, POST, obj_bytes, w_str. destruct nm as [|x nm]; [contradiction|].
       rewrite Hnl. unfold rec_bytes. now rewrite <- !app_assoc. }
     assert (Hp : nlen (lay_header h) + (nlen (flat_map lay_item pre) + (4 + 8 + 12 + 4 + k)) = nlen PRE + k).
-    { unfold PRE. rewrite !nlen_app, <- obj_offset, nlen_rec, !nlen_le_encode.
+    { unfold PRE. rewrite nlen_app, <- obj_offset. rewrite !nlen_app, nlen_rec, !nlen_le_encode.
       change (N.of_nat 4) with 4. change (N.of_nat 8) with 8. lia. }
     rewrite (Hw (class_name c) Hne0 eq_refl), Hp in *. clear Hp.
-    fold FLD in Hb, RT |- *.
     rewrite field_nth in Hb by exact Hk. rewrite field_subst by exact Hk.
-    assert (Hn1 : subst1 FLD k v <> []).
-    { intro E. apply (f_equal (@length N)) in E. rewrite subst1_length in E. unfold FLD in E.
+    assert (Hn1 : subst1 (class_name c) k v <> []).
+    { intro E. apply (f_equal (@length N)) in E. rewrite subst1_length in E.
       destruct (class_name c); [contradiction|discriminate]. }
-    assert (Hn2 : nlen (subst1 FLD k v) = nlen (class_name c)) by apply nlen_subst1.
+    assert (Hn2 : nlen (subst1 (class_name c) k v) = nlen (class_name c)) by apply nlen_subst1.
     rewrite <- (Hw _ Hn1 Hn2). rewrite <- (Hw (class_name c) Hne0 eq_refl) in RT.
     destruct (damaged_obj_run check_after_read version_test_is_or h F pre c id body post I) as (X & HX).
     fold its in HX.
     rewrite (HX (le_encode 8 actual) (class_name c)) in RT; [|apply nlen_le_encode|exact Hne0|reflexivity].
     rewrite intact_verdict in RT by exact actual_small.
-    unfold read. rewrite (HX (le_encode 8 actual) (subst1 FLD k v)); [|apply nlen_le_encode|exact Hn1|exact Hn2].
+    unfold read. rewrite (HX (le_encode 8 actual) (subst1 (class_name c) k v)); [|apply nlen_le_encode|exact Hn1|exact Hn2].
+    split; [exact Hb|].
     unfold obj_verdict.
-    destruct (lookup_class (subst1 FLD k v)) as [c'|] eqn:El; [|now left].
-    destruct (N.eqb_spec c' (norm_class c)) as [Ec|Ec]; cbn [negb]; [|right; now left].
-    right. right. split.
-    - subst c'. apply lookup_class_matches, name_matches_eq in El. rewrite class_name_norm in El.
-      eapply until_nul_subst; [apply class_name_nonzero|exact Hb|exact El].
-    - rewrite le_decode_encode by (pose proof actual_small; change (256 ^ N.of_nat 8) with 18446744073709551616; lia).
-      rewrite to_signed64_small by (pose proof actual_small; lia). rewrite Z.ltb_irrefl. exact RT.
+    destruct (lookup_class (subst1 (class_name c) k v)) as [c'|] eqn:El; [|reflexivity].
+    destruct (N.eqb_spec c' (norm_class c)) as [Ec|Ec]; cbn [negb]; [|reflexivity].
+    rewrite le_decode_encode by (pose proof actual_small; change (256 ^ N.of_nat 8) with 18446744073709551616; lia).
+    rewrite to_signed64_small by (pose proof actual_small; lia). unfold actual. rewrite !Z.ltb_irrefl. exact RT.
   Qed.
 End Located.
